@@ -84,14 +84,17 @@ impl<T: RefCnt> HybridProtection<T> {
                 Self::from_inner(unsafe { Self::new(candidate, Some(debt)).into_inner() })
             }
             Err((unused_debt, replacement)) => {
+                // We got a (possibly) different pointer out. That one is already protected. Take
+                // the ownership of it first ‒ the decrement below may run the destructor of the
+                // candidate and if that panics, the replacement must not get lost.
+                let replacement = unsafe { Self::new(replacement as *mut _, None) };
                 // The debt is on the candidate we provided and it is unused, we so we just pay it
                 // back right away.
                 if !unused_debt.pay::<T>(candidate) {
                     unsafe { T::dec(candidate) };
                 }
-                // We got a (possibly) different pointer out. But that one is already protected and
-                // the slot is paid back.
-                unsafe { Self::new(replacement as *mut _, None) }
+                // And now the slot is paid back too.
+                replacement
             }
         };
         // The transaction is over and the helping slot is free again, so now it is safe to let
@@ -223,6 +226,11 @@ impl<T: RefCnt, Cfg: Config> CaS<T> for HybridStrategy<Cfg> {
             let old = <Self as InnerStrategy<T>>::load(self, storage);
             // Observation of their inequality is enough to make a verdict
             if old.as_ptr() != current.as_raw() {
+                // Get rid of the inputs while `old` is still an ordinary local variable. They
+                // may run destructors of the pointees and if one panics, `old` (and its debt)
+                // must be released during the unwinding, not leaked as an abandoned return value.
+                drop(new);
+                drop(current);
                 return old;
             }
             // If they are still equal, put the new one in.
@@ -237,6 +245,8 @@ impl<T: RefCnt, Cfg: Config> CaS<T> for HybridStrategy<Cfg> {
                 // We just got one ref count out of the storage and we have one in old. We don't
                 // need two.
                 T::dec(old.as_ptr());
+                // Same as above ‒ no destructors of the inputs after `old` became the result.
+                drop(current);
                 return old;
             }
         }
